@@ -65,7 +65,7 @@ ANNOTATION = OneOf(Cls(ast.Name, id=Str), Cls(ast.Subscript, value=OneOf(Cls(ast
 
 
 class ParseInputFieldDefaultValue(Contract):
-    props = ("C06", "C19")
+    props = ("C06", "C19", "C03")
     target = "ariadne_codegen.client_generators.input_fields:parse_input_field_default_value"
     use_at_calls = False
     trusted = ["graphql-core: ast_from_value(v, type) is the literal denoting the coerced default v (or None when v cannot be represented)"]
